@@ -323,6 +323,7 @@ class Evaluator:
         self.unbound: list = []
         self._n = 0
         self.scopes: list[dict] = []   # stack of {"locals": set, "globals": set}
+        self.cont_stack: list[list] = []   # per open loop: [(guards at the continue, env there)]
 
     # ---- ids
     def nid(self, kind, node):
@@ -717,6 +718,8 @@ class Evaluator:
         return env, ("ite", c, FALL, ("raise", ("call", ("glob", "builtins.AssertionError"), (msg,), ())))
 
     def s_Continue(self, st, env, ctx):
+        if self.cont_stack:
+            self.cont_stack[-1].append((ctx.guards, dict(env)))
         return env, CONT
 
     def s_Break(self, st, env, ctx):
@@ -781,8 +784,28 @@ class Evaluator:
             cond = self.ev(st.test, benv, lctx)
             info.iterable = cond
             lctx = lctx.guard(cond, True)
-        eend, tree = self.block(body, benv, lctx)
-        info.update = {name: eend.get(name, ("undef", name)) for name in assigned}
+        self.cont_stack.append([])
+        try:
+            eend, tree = self.block(body, benv, lctx)
+        finally:
+            conts = self.cont_stack.pop()
+        info.update = {}
+        base = len(lctx.guards)
+        for name in assigned:
+            val = eend.get(name, ("undef", name))
+            # iterations that end at a 'continue' keep the value the name had there
+            for guards, cenv in reversed(conts):
+                cv = cenv.get(name, ("undef", name))
+                if cv == val:
+                    continue
+                extra = guards[base:]
+                if not extra:
+                    val = cv
+                    continue
+                conj = [(g if pol else ("un", "not", g)) for g, pol in extra]
+                cond = conj[0] if len(conj) == 1 else ("and", tuple(conj))
+                val = ("ite", cond, cv, val)
+            info.update[name] = val
         info.tree = tree
         out = dict(env)
         for name in assigned | set(tnames):
